@@ -28,6 +28,11 @@ pub struct C06Case {
     pub opts: GOpts,
     /// two alternative spellings for the metamorphic relation
     pub alt_spell: Vec<u8>,
+    /// four files of 70 000 bytes (two contents) in the first root, and an additional root on another
+    /// block device (loop device backed by tmpfs) that holds symlinks to three of them; -S is forced, so the
+    /// links are reported and share the ids of their targets while being hashed by another device's pool
+    #[serde(default)]
+    pub xdev_links: bool,
 }
 
 pub fn spell(base: &str, style: u8, tree: &Path) -> OsString {
@@ -75,8 +80,9 @@ fn case_strategy() -> BoxedStrategy<C06Case> {
                 proptest::collection::vec(root, 0..3),
                 proptest::collection::vec(0u8..9, nroots + 3),
                 proptest::collection::vec(0u8..9, nroots + 3),
+                prop::bool::weighted(0.2),
             )
-                .prop_map(move |(tree, mut opts, extra, sp, alt)| {
+                .prop_map(move |(tree, mut opts, extra, sp, alt, xdev_links)| {
                     opts.transform = None;
                     opts.max_prefix = None;
                     opts.max_suffix = None;
@@ -86,7 +92,12 @@ fn case_strategy() -> BoxedStrategy<C06Case> {
                     if roots.len() == nroots {
                         opts.fix_isolate(nroots);
                     }
-                    C06Case { tree, roots, opts, alt_spell: alt }
+                    if xdev_links {
+                        opts.symbolic_links = true;
+                        opts.follow_links = false;
+                        opts.disk = 0;
+                    }
+                    C06Case { tree, roots, opts, alt_spell: alt, xdev_links }
                 })
         })
         .boxed()
@@ -105,7 +116,34 @@ pub fn run_case(c: &C06Case, n: u64) -> Verdict {
     if roots.is_empty() {
         return Verdict::Discard("no-roots".into());
     }
-    let args: Vec<OsString> = roots.iter().map(|r| spell(&r.base, r.spell, &tree)).collect();
+    let mut args: Vec<OsString> = roots.iter().map(|r| spell(&r.base, r.spell, &tree)).collect();
+    // links on another block device
+    let mut xdev_dir: Option<PathBuf> = None;
+    if c.xdev_links {
+        if let Some(m) = ssd_mount() {
+            let r0 = tree.join(&roots[0].base);
+            let d = m.join(format!("xdev{}", n));
+            if std::fs::create_dir_all(&d).is_ok() {
+                for (i, class) in [(0u32, 40u32), (1, 40), (2, 41), (3, 41)] {
+                    let _ = std::fs::write(r0.join(format!("big{}", i)), class_bytes(class, 70_000));
+                }
+                for i in 0..3 {
+                    let _ = std::os::unix::fs::symlink(r0.join(format!("big{}", i)), d.join(format!("l{}", i)));
+                }
+                args.push(d.clone().into_os_string());
+                xdev_dir = Some(d);
+            }
+        }
+    }
+    struct Rm(Option<PathBuf>);
+    impl Drop for Rm {
+        fn drop(&mut self) {
+            if let Some(p) = &self.0 {
+                let _ = std::fs::remove_dir_all(p);
+            }
+        }
+    }
+    let _rm = Rm(xdev_dir.clone());
     let run = run_group(&cd, &c.opts, &args, "json", &[]);
     let sig = {
         let mut s = vec![];
@@ -149,7 +187,10 @@ pub fn run_case(c: &C06Case, n: u64) -> Verdict {
     };
 
     // reference
-    let root_paths: Vec<PathBuf> = roots.iter().map(|r| tree.join(&r.base)).collect();
+    let mut root_paths: Vec<PathBuf> = roots.iter().map(|r| tree.join(&r.base)).collect();
+    if let Some(d) = &xdev_dir {
+        root_paths.push(d.clone());
+    }
     let selected = reference_walk(&root_paths, &c.opts.walk_opts(), &|_, _, _| false, &|_| true);
     let counting = Counting {
         rf: c.opts.rf_model(),
@@ -169,8 +210,11 @@ pub fn run_case(c: &C06Case, n: u64) -> Verdict {
 
     // metamorphic: other spellings of the same roots give the same report body
     let canonical: Vec<OsString> = root_paths.iter().map(|p| canon(p).into_os_string()).collect();
-    let alt: Vec<OsString> =
+    let mut alt: Vec<OsString> =
         roots.iter().enumerate().map(|(i, r)| spell(&r.base, c.alt_spell[i % c.alt_spell.len()], &tree)).collect();
+    if let Some(d) = &xdev_dir {
+        alt.push(d.clone().into_os_string());
+    }
     for (name, a) in [("canonical", canonical), ("alternative", alt), ("stdin", args.clone())] {
         let r2 = if name == "stdin" { run_group_stdin(&cd, &c.opts, &a, "json", &[]) } else { run_group(&cd, &c.opts, &a, "json", &[]) };
         if name == "stdin" && !r2.out.ok() && !r2.out.crashed() && !r2.out.timed_out && clean_rejection(&r2.out).is_some() {
@@ -243,7 +287,7 @@ pub fn check(tier: Tier) -> i32 {
     cleanup_process_scratch();
     ctx.finish(
         "exploration",
-        "proptest-generated trees of tiny files in 1-4 roots with hard-link sets inside/across roots, file and directory symlinks, overlapping roots, 9 root spellings (relative, ./, trailing slash, /., .., ../cwd, absolute, through a directory symlink, //) x --rf-over 0..3 / --rf-under 1..4 / --unique / -H / -I / -S / -L; oracle 1: reference replica count (hard links one replica, every path under -H, one per canonical root under -I) decides reported classes, each with all its paths; oracle 2 (metamorphic): canonical and alternative spellings of the same roots, and the same roots fed through --stdin (unless that combination is rejected), give identical groups and statistics. Non-trivial = a class whose path count, inode count and root count are not all equal and whose replica count is within 1 of the threshold.",
+        "proptest-generated trees of tiny files in 1-4 roots with hard-link sets inside/across roots, file and directory symlinks, overlapping roots, in a fifth of the cases an additional root on another block device holding symlinks (reported with -S) to 70 kB files of the first root, 9 root spellings (relative, ./, trailing slash, /., .., ../cwd, absolute, through a directory symlink, //) x --rf-over 0..3 / --rf-under 1..4 / --unique / -H / -I / -S / -L; oracle 1: reference replica count (hard links one replica, every path under -H, one per canonical root under -I) decides reported classes, each with all its paths; oracle 2 (metamorphic): canonical and alternative spellings of the same roots, and the same roots fed through --stdin (unless that combination is rejected), give identical groups and statistics. Non-trivial = a class whose path count, inode count and root count are not all equal and whose replica count is within 1 of the threshold.",
         &["root arguments name directories", "isolate roots are compared canonically (statement: outcome independent of spelling)"],
     )
 }
